@@ -191,7 +191,7 @@ def model_check(rq, rec, model):
     for k, v in [(b"Host", b"h.example")] + rq["hdrs"] + ([(b"Content-Length", b"%d" % len(rq["body"]))] if rq["framing"] == "cl" else []):
         for i, (k2, v2) in enumerate(merged):
             if k2.lower() == k.lower():
-                if v: merged[i] = (k2, v2 + b", " + v if v2 else v)
+                if v: merged[i] = (k2, v2 + (b"; " if k.lower() == b"cookie" else b", ") + v if v2 else v)      # request.c joins repeated Cookie fields with "; " (RFC 6265 5.4)
                 break
         else: merged.append((k, v))
     full = urllib.parse.unquote_to_bytes(rq["path"]); k2 = full.find(b"/", len(b"/" + rq["kind"].encode() + b"/"))
